@@ -92,6 +92,9 @@ def mutants(text, byte_level=False):
         yield ("delete-end-tag", text[:a] + text[b:], False)
         # 3 renaming
         alts = [n for n in names if n != e.val][:3] + [e.val + "X", e.val[:-1] or "Q", "ZZZ"]
+        if e.val[-1:].isdigit():
+            # ...MSGSRSV1 -> ...MSGSRSV2 / ...MSGSRSV11: a different name all the same
+            alts += [e.val[:-1] + ("2" if e.val[-1] != "2" else "3"), e.val + "1"]
         for alt in dict.fromkeys(alts):
             if alt != e.val:
                 yield ("rename-end-tag", text[:a] + "</" + alt + ">" + text[b:], False)
@@ -250,6 +253,9 @@ REAL_DOCS = [
     "<LANGUAGE>ENG</LANGUAGE><APPID>QWIN</APPID><APPVER>2700</APPVER></SONRQ></SIGNONMSGSRQV1><BANKMSGSRQV1><STMTTRNRQ>"
     "<TRNUID>1</TRNUID><STMTRQ><BANKACCTFROM><BANKID>1</BANKID><ACCTID>2</ACCTID><ACCTTYPE>CHECKING</ACCTTYPE></BANKACCTFROM>"
     "<INCTRAN><INCLUDE>Y</INCLUDE></INCTRAN></STMTRQ></STMTTRNRQ></BANKMSGSRQV1></OFX>",
+    "<OFX><SIGNONMSGSRSV1><SONRS><STATUS><CODE>0</CODE><SEVERITY>INFO</SEVERITY></STATUS><DTSERVER>20200101</DTSERVER><LANGUAGE>ENG</LANGUAGE></SONRS></SIGNONMSGSRSV1>"
+    "<EMAILMSGSRSV1><MAILTRNRS><TRNUID>1</TRNUID><STATUS><CODE>0</CODE><SEVERITY>INFO</SEVERITY></STATUS><MAILRS><MAIL><USERID>u</USERID><DTCREATED>20200101</DTCREATED>"
+    "<FROM>bank</FROM><TO>u</TO><SUBJECT>Fees</SUBJECT><MSGBODY>Your fees are due this month.</MSGBODY><INCIMAGES>N</INCIMAGES><USEHTML>N</USEHTML></MAIL></MAILRS></MAILTRNRS></EMAILMSGSRSV1></OFX>",
     "<OFX>\r\n<SIGNONMSGSRSV1>\r\n<SONRS>\r\n<STATUS>\r\n<CODE>0\r\n<SEVERITY>INFO\r\n</STATUS>\r\n<DTSERVER>20200101\r\n<LANGUAGE>ENG\r\n</SONRS>\r\n</SIGNONMSGSRSV1>\r\n</OFX>\r\n",
 ]
 
